@@ -195,6 +195,23 @@ for _m in ("map", "filter", "exists_one", "all", "exists"):
                 pass
 
 
+# every Python exception class an evaluation can raise inside an ABSORBING position (the interpreter maps them rule by rule,
+# transpiled code through result()'s table): deterministic matrix
+ERROR_EXPRS = [
+    "[][0] > 0", "1 / 0 > 0", "{}.k > 0", "nope > 0", "int(1.0e308 * 10.0) > 0", "uint(-1.0e308 * 10.0) > 0u", "timestamp('9999-12-31T23:59:59Z') + duration('48h') > timestamp('2000-01-01T00:00:00Z')",
+    "timestamp('0001-01-01T00:00:00Z') - duration('48h') < timestamp('2000-01-01T00:00:00Z')", "int('x') > 0", "uint(-1) > 0u", "9223372036854775807 + 1 > 0", "1 + 'a' > 0", "'a'.size(1) > 0", "1.5.startsWith('a')",
+    "timestamp('x') > timestamp('2000-01-01T00:00:00Z')", "string(b'\\xff') == 'a'", "'a'.matches('(')", "duration('1y') > duration('1s')", "[1, 2][5] > 0", "{'a': 1}['b'] > 0", "1 % 0 > 0", "-(-9223372036854775807 - 1) > 0",
+    "timestamp('2000-01-01T00:00:00Z').getHours('Nowhere/City') > 0", "double('1.2.3') > 0.0", "bytes('a')[0] > 0", "[1].map(x, 1 / 0)[0] > 0", "has({}.a.b)", "type(1)(2) == 1", "dyn(1) + dyn('a') > 0",
+]
+ABSORBING_FORMS = [
+    "({e}) || true", "true || ({e})", "false && ({e})", "({e}) && false", "true ? 1 : (({e}) ? 1 : 2)", "false ? (({e}) ? 1 : 2) : 1", "[1].exists(x, ({e}) || true)", "[1, 2].all(x, x == 5 && ({e}))",
+    "[1, 2].exists(x, x == 2 || ({e}))", "({e}) || ({e}) || true", "false && (({e}) || ({e}))", "[({e}) || true]", "{'k': false && ({e})}", "[1].map(x, ({e}) || true)", "({e})", "!({e})", "({e}) ? 1 : 2",
+]
+for _f in ABSORBING_FORMS:
+    for _e in ERROR_EXPRS:
+        SPECIALS.append((_f.replace("{e}", _e), "absorbing-form"))
+
+
 def nontrivial(src: str, oi) -> bool:
     return oi[0] == "E" or any(tok in src for tok in ("&&", "||", "?", "has(", ".map(", ".filter(", ".all(", ".exists"))
 
